@@ -105,7 +105,7 @@ pub enum Via {
     StructPattern,
 }
 
-pub const ILLEGAL_KINDS: [Illegal; 52] = [
+pub const ILLEGAL_KINDS: [Illegal; 60] = [
     Illegal::NotImported,
     Illegal::NotImportedVia(Via::SignatureType),
     Illegal::NotImportedVia(Via::LetAnnotation),
@@ -158,6 +158,14 @@ pub const ILLEGAL_KINDS: [Illegal; 52] = [
     Illegal::BuiltinNamedType(1),
     Illegal::NotImportedInThisFile(7),
     Illegal::ImplFromNonImported,
+    Illegal::NotImportedInThisFile(8),
+    Illegal::NotImportedInThisFile(9),
+    Illegal::NotImportedInThisFile(10),
+    Illegal::NotImportedInThisFile(11),
+    Illegal::NotImportedInThisFile(12),
+    Illegal::NotImportedInThisFile(13),
+    Illegal::NotImportedInThisFile(14),
+    Illegal::NotImportedInThisFile(15),
 ];
 
 fn reaches(proj: &Project, from: usize, to: usize) -> bool {
@@ -471,8 +479,17 @@ pub fn inject(proj: &Project, kind: &Illegal, p: &mut Prng) -> Option<(Files, Fi
             twin.pkgs[pi].raw.push_str(&format!(
                 "\nfn zz_loc() -> {qn}::ZzS {{\n    {qn}::zz_mk()\n}}\n\nfn zz_loc_e() -> {qn}::ZzE {{\n    {qn}::zz_mk_e()\n}}\n"
             ));
-            let item = match form % 8 {
+            let item = match form % 16 {
                 7 => format!("fn zz_use[X: {qn}::ZzT](x: X) -> int32 {{\n    1\n}}\n"),
+                // type positions
+                8 => format!("fn zz_use(d: dyn {qn}::ZzT) -> int32 {{\n    1\n}}\n"),
+                9 => format!("fn zz_use(v: {qn}::ZzS) -> int32 {{\n    1\n}}\n"),
+                10 => format!("fn zz_use() -> {qn}::ZzS {{\n    zz_loc()\n}}\n"),
+                11 => format!("struct ZzLocal {{\n    f: {qn}::ZzS,\n}}\n"),
+                12 => format!("fn zz_use() -> int32 {{\n    let v: Vec[{qn}::ZzS] = vec_new();\n    1\n}}\n"),
+                13 => format!("fn zz_use() -> int32 {{\n    let f = |a: {qn}::ZzS| 1;\n    1\n}}\n"),
+                14 => format!("enum ZzLocalE {{\n    A({qn}::ZzE),\n    B,\n}}\n"),
+                15 => format!("fn zz_use(r: Ref[{qn}::ZzS], t: ({qn}::ZzE, int32)) -> int32 {{\n    1\n}}\n"),
                 0 => format!("fn zz_use() -> int32 {{\n    {qn}::zz_pub()\n}}\n"),
                 1 => format!("fn zz_use() -> int32 {{\n    {qn}::ZzS::zzn()\n}}\n"),
                 2 => format!("fn zz_use() -> int32 {{\n    {qn}::ZzT::zz({qn}::zz_mk())\n}}\n"),
